@@ -118,6 +118,11 @@ def inputs(names_all):
         for pos in range(n):
             for v in (None, 0, ''):
                 yield [v if i == pos else 'P%d' % i for i in range(n)]
+    # ONE positional argument that is itself an object whose member names are the parameter names (an argument, not a by-name call)
+    own = [n for n in names_all if n not in ('zz', 'ctx', 'context')]
+    for r in sorted({len(own), max(len(own) - 1, 0), 1} - {0}):
+        yield [{k: 'N_%s' % k for k in own[:r]}]
+        yield [{k: 'N_%s' % k for k in own[:r]}, 'P1']
     for r in range(0, len(names_all) + 1):
         for sub in itertools.combinations(names_all, r):
             yield {k: 'N_%s' % k for k in sub}
@@ -283,9 +288,62 @@ def run_returns(case, rec):
     return tuple(obs)
 
 
+def run_unresolved(case, rec):
+    """annotations the interpreter cannot evaluate at run time (names imported under `if TYPE_CHECKING:`, forward references): binding is
+    about names, the method is called all the same"""
+    obs = []
+    for disp in ('sync', 'async'):
+        for where in ('function', 'context', 'view'):
+            log = []
+            ns = {'_log': log}
+            pre = 'async ' if disp == 'async' else ''
+            if where == 'view':
+                exec('class V(ViewMixin):\n    def __init__(self, context: "Undefined.Request"):\n        super().__init__()\n'
+                     '    %sdef f(self, a: "Missing", b: "Also.Missing" = 2) -> "Nope":\n        _log.append((a, b))\n        return [a, b]\n' % pre,
+                     dict(ns, ViewMixin=pjrpc.server.ViewMixin), ns)
+            elif where == 'context':
+                exec('%sdef f(ctx: "Undefined.Request", a: "Missing", b: "Also.Missing" = 2) -> "Nope":\n    _log.append((a, b))\n    return [a, b]\n' % pre, ns)
+            else:
+                exec('%sdef f(a: "Missing", b: "Also.Missing" = 2) -> "Nope":\n    _log.append((a, b))\n    return [a, b]\n' % pre, ns)
+            d = pjrpc.server.AsyncDispatcher() if disp == 'async' else pjrpc.server.Dispatcher()
+            if where == 'view':
+                d.registry.view(ns['V'], context='context')
+            elif where == 'context':
+                d.add(ns['f'], name='f', context='ctx')
+            else:
+                d.add(ns['f'], name='f')
+            for params, want in (([1], [1, 2]), ([1, 3], [1, 3]), ({'a': 1}, [1, 2]), ({'b': 5, 'a': 0}, [0, 5]), ([], None), ({'zz': 1}, None), ([1, 2, 3], None)):
+                del log[:]
+                text = json.dumps({'jsonrpc': '2.0', 'id': 1, 'method': 'f', 'params': params})
+                try:
+                    if disp == 'async':
+                        loop = VLoop()
+                        try:
+                            r = loop.run(d.dispatch(text, context='CTX'))
+                        finally:
+                            loop.close()
+                    else:
+                        r = d.dispatch(text, context='CTX')
+                    resp = json.loads(r[0])
+                except Exception as e:   # noqa
+                    resp = {'raised': repr(e)[:200]}
+                rec.transitions += 1
+                ok = (resp.get('result') == want and len(log) == 1) if want is not None else (resp.get('error', {}).get('code') == -32602 and not log)
+                if not ok:
+                    rec.violation('C04:%s:sig-has[]' % ('bindable arguments refused / changed for a method whose annotations cannot be evaluated' if want is not None
+                                                        else 'unbindable arguments not refused with -32602 for a method whose annotations cannot be evaluated'),
+                                  dict(case, disp=disp, where=where, params=params), expected=want if want is not None else -32602, observed=resp)
+                obs.append(ok)
+    rec.states += 1
+    rec.traces += 1
+    rec.nontrivial_n += 1
+    return tuple(obs)
+
+
 def gen_cases(ctx):
     yield dict(mutating=True)
     yield dict(returns=True)
+    yield dict(unresolved=True)
     for name in AWKWARD_NAMES:
         yield dict(awkward=True, name=name)
     sigs = signatures(ctx.pick(4, 5))
@@ -346,6 +404,8 @@ def run_case(case, rec):
         return run_mutating(case, rec)
     if case.get('returns'):
         return run_returns(case, rec)
+    if case.get('unresolved'):
+        return run_unresolved(case, rec)
     sig = tuple(tuple(x) for x in case['sig'])
     mode, pos = case['mode'], case['pos']
     bp = build_params(sig, mode, pos)
@@ -591,6 +651,8 @@ def replay(doc):
         run_case(dict(mutating=True), rec)
     elif c.get('returns'):
         run_case(dict(returns=True), rec)
+    elif c.get('unresolved'):
+        run_case(dict(unresolved=True), rec)
     elif c.get('awkward'):
         run_case(dict(awkward=True, name=c['name']), rec)
     else:
